@@ -248,6 +248,36 @@ def run(ctx, rep):
             pass
 
     c13.rule_auto(ctx, _OnlyUnionAuto(rep), only=("ArcUnion",))  # "as a handle of that type": the union is Send/Sync exactly when Arc<A> and Arc<B> both are (C13's impl table)
+    from . import c14 as _c14
+
+    class _OnlyUnionCmp:
+        """Forwards C14's equality instances about ArcUnion only ("two unions holding different variants never compare equal": `ne`
+        is `eq` negated case by case, the mixed-variant arm included)."""
+
+        def __init__(self, rep):
+            self._rep = rep
+            self.notes = rep.notes
+            self.exempt = rep.exempt
+            self.samples = rep.samples
+
+        def __getattr__(self, name):
+            return getattr(self._rep, name)
+
+        def ok(self, rule, key, *a, **k):
+            if rule in ("R-EQ-NE", "R-NE-NEG") and "ArcUnion" in key:
+                self._rep.ok(rule, key, *a, **k)
+
+        def bad(self, rule, key, *a, **k):
+            if rule in ("R-EQ-NE", "R-NE-NEG") and "ArcUnion" in key:
+                self._rep.bad(rule, key, *a, **k)
+
+        def floor(self, *a, **k):
+            pass
+
+        def sample(self, *a, **k):
+            pass
+
+    _c14.rule_deleg(ctx, _OnlyUnionCmp(rep))
     from . import c11 as _c11
 
     _c11.rule_refcnt_pair(ctx, rep, only=("ArcUnion",))  # (if the union is given arc-swap glue: the tagged word, not the payload address, is what goes in and out)
@@ -770,6 +800,7 @@ def main(argv):
             " R-ARMS typed-access clause (any function building a typed borrow/handle from the union's word does so inside the arm of that variant); R-REFCNT-PAIR for the union."
             " Round thirteen/fourteen: R-DESTROY as a premise; R-TAG refuses in-bounds pointer arithmetic on the union's word (undefined behaviour for zero-sized payloads); the variant test may be the written-out tag test or a private enum decoded from it."
             ' Round fifteen: R-OFFSET and R-ZST-DIV as premises.'
+            " Round seventeen: the ArcUnion instances of C14's R-EQ-NE / R-NE-NEG (unions holding different variants never compare equal, under `!=` too)."
         ),
         rule_text="instances = tag construction/test/strip sites, variant arms, the parity lemma",
         trusted_base=["rustc MIR def-use", "repr(C) layout rules", "expression evaluator analysis/symx.py"],
